@@ -431,6 +431,13 @@ def jobs(tier):
     add("h_tool", T, tool="zip", S=2, N=2, fl="acls")
     add("h_tool", T, tool="compress", S=2, N=2, fl="adual")
     add("h_tool", T, tool="chain", S=2, N=2, fl="bare")
+    add("h_tool", T, tool="zip_longest", S=2, N=2, fl="bare")
+    add("h_tool", T, tool="zip", S=2, N=2, fl="bare")
+    add("h_tool", T, tool="compress_shared", S=1, N=4)
+    add("h_tool", T, tool="zip_shared", S=1, N=4)
+    for t in ("map", "filter", "takewhile", "dropwhile", "filterfalse", "accumulate_f", "starmap", "iter_sentinel"):
+        add("h_tool", T, tool=t, S=1, N=3, ffl="defaw")
+    add("h_merge", T, S=2, N=2, ffl="defaw", usekey=True)
     add("h_accumulate_add", T, N=5, fl="agen")
     add("h_accumulate_add", T, N=3, fl="agen", kind="list")
     for t, S_ in (("zip", 2), ("zip_longest", 2), ("chain", 2), ("islice", 1), ("batched", 1), ("pairwise", 1), ("enumerate0", 1), ("cycle", 1), ("compress", 2), ("filter_none", 1), ("filterfalse_none", 1), ("iter_sentinel", 1)):
